@@ -521,7 +521,10 @@ def loop_paths_h(facts, fn, inline='all', opaque=(), self_class=None, parent=Non
             for e in ast.walk(target.target):
                 if isinstance(e, ast.Name):
                     s.env[e.id] = ('item', e.id)
-        results.extend(w.run(target.body, s))
+        paths = w.run(target.body, s)
+        for p in paths:
+            p.pre_env = pre_env
+        results.extend(paths)
     return target, results
 
 
